@@ -130,17 +130,16 @@ def _seq_stage(ctx, stage, cases):
     """Sequential stage. Failures are grouped by class (Done / Err / Deadline / Value / registry / panic / named deviation);
     SEQ_REPRO cases per class are run again alone in a fresh process and must fail again."""
     res = ctx.replay(stage, cases)
+    n0 = len(ctx.fail_results)
     ctx.judge(stage, cases, res, reproduce=False)
-    fails = [(n, c, r) for (n, c, r) in ctx.fail_results if n == stage]
-    ctx.fail_results[:] = [(n, c, r) for (n, c, r) in ctx.fail_results if n != stage]
+    fails = ctx.fail_results[n0:]
+    del ctx.fail_results[n0:]
     done = {}
     for n, case, r in fails:
         k = _cls(r)
         if done.get(k, 0) < SEQ_REPRO:
             done[k] = done.get(k, 0) + 1
             single = os.path.join(ctx.out, "single_%s.ndjson" % stage)
-            with open(single, "w") as f:
-                f.write(json.dumps(case) + "\n")
             # the replayer picks Background / TODO by case index: keep the parity class of the index
             with open(single, "w") as f:
                 f.write("".join(json.dumps(case) + "\n" for _ in range(4)))
@@ -158,9 +157,10 @@ def _conc_stage(ctx, stage, cases):
     res = ctx.replay(stage, cases, race=True, env_extra=_gorace(rdir))
     if "DATA RACE" in (ctx.last_stderr or ""):
         raise vlib.Broken("race report on stderr although GORACE log_path is set:\n%s" % ctx.last_stderr[-2000:])
+    n0 = len(ctx.fail_results)
     ctx.judge(stage, cases, res, race=True, reproduce=False)
-    fails = [(n, c, r) for (n, c, r) in ctx.fail_results if n == stage]
-    ctx.fail_results[:] = [(n, c, r) for (n, c, r) in ctx.fail_results if n != stage]
+    fails = ctx.fail_results[n0:]
+    del ctx.fail_results[n0:]
     seen = {}
     for n, case, r in fails:
         cls = _cls(r)
